@@ -28,6 +28,7 @@ Definition of_req (r : req) : sx :=
   | RRerun i => L [I 1; of_opt I i]
   | RStatus i => L [I 2; of_opt I i]
   | RWrite => L [I 3]
+  | RResult i => L [I 4; of_opt I i]
   end.
 
 Definition to_spec (x : sx) : spec :=
@@ -40,6 +41,8 @@ Definition to_op (x : sx) : op :=
   | 2%Z => ORun (to_bool (nthx 1 x))
   | 3%Z => ORerun (to_bool (nthx 1 x)) (to_bool (nthx 2 x))
   | 5%Z => OReadd (to_nat (nthx 1 x))
+  | 6%Z => OGetResults
+  | 7%Z => OTrack
   | _ => OProgress
   end.
 Definition to_answer (x : sx) : answer :=
@@ -80,3 +83,55 @@ Definition x_jobgroup_run_cfg (c : cfg) (x : sx) : sx :=
   L (run_report c (init sc) ops).
 Definition x_jobgroup_run : sx -> sx := x_jobgroup_run_cfg cur.
 Definition x_jobgroup_run_old : sx -> sx := x_jobgroup_run_cfg old.
+
+(* ---- several groups. mop encodings: (0 n) open, (1 n op) operation on n, (2 n) delete, (3) delete all, (4 all) by date.
+   Report per operation: outcome; log of this operation; answers consumed; files ((name djobs) ...);
+   live objects ((name jobs reopened-jobs progress lists unsaved-flag) ...) *)
+Definition to_mop (x : sx) : mop :=
+  match to_Z (nthx 0 x) with
+  | 0%Z => MOpen (to_Z (nthx 1 x))
+  | 1%Z => MOn (to_Z (nthx 1 x)) (to_op (nthx 2 x))
+  | 2%Z => MDelete (to_Z (nthx 1 x))
+  | 3%Z => MDeleteAll
+  | _ => MDeleteDate (to_bool (nthx 1 x))
+  end.
+
+Definition of_handle (c : cfg) (w : world) (h : Z * list job) : sx :=
+  let '(n, l) := h in
+  let '(u, s, ot, a) := progress l in
+  L [I n; L (map of_job l);
+     L (map of_job (match sget n (files w) with Some d => load c d | None => [] end));
+     of_nats [u; s; ot; a];
+     of_nats [length (list_successful l); length (list_active l); length (list_unsuccessful l); length (list_unsent l)];
+     of_bool (never_sent_waiting l)].
+
+Definition mreport (c : cfg) (before w : world) (o : outcome) (flag : bool) : sx :=
+  L [of_outcome o;
+     L (map of_req (wlog w));
+     of_nat_sx (length (wscr before) - length (wscr w));
+     L (map (fun f => L [I (fst f); L (map of_djob (snd f))]) (files w));
+     L (map (of_handle c w) (handles w));
+     of_bool flag].
+
+(* the ghost flag of the inner operation, for the report only *)
+Definition mflag (c : cfg) (w : world) (o : mop) : bool :=
+  match o with
+  | MOn n o1 => match sget n (handles w), sget n (files w) with
+                | Some l, Some d => udirty (fst (step c (mkm l d (wscr w) (wlog w) false) o1))
+                | _, _ => false end
+  | _ => false
+  end.
+
+Fixpoint mrun_report (c : cfg) (w : world) (ops : list mop) : list sx :=
+  match ops with
+  | [] => []
+  | o :: r =>
+      let w0 := mkw (files w) (handles w) (wscr w) [] in
+      let '(w1, out) := mstep c w0 o in
+      mreport c w0 w1 out (mflag c w0 o) :: mrun_report c w1 r
+  end.
+
+Definition x_jobgroup_world (x : sx) : sx :=
+  let ops := map to_mop (to_list (nthx 0 x)) in
+  let sc := map to_answer (to_list (nthx 1 x)) in
+  L (mrun_report cur (winit sc) ops).
